@@ -37,6 +37,10 @@ const LOOPY: &[Loopy] = &[
         src: "and r0 r0 #0\nadd r0 r0 #4\nlp add r0 r0 #-1\nbrp lp\ndone halt\n" },
     Loopy { class: "two_loop", stack: false, origin: 0x3000, n: 4, labels: &[("pa", 1), ("pb", 2)],
         src: "and r1 r1 #0\npa add r1 r1 #1\npb brnzp pa\nhalt\n" },
+    Loopy { class: "two_loop", stack: false, origin: 0x3000, n: 3, labels: &[("top", 0), ("nx", 1)],
+        src: "top add r1 r1 #1\nnx brnzp top\nhalt\n" },
+    Loopy { class: "two_loop", stack: true, origin: 0x0100, n: 5, labels: &[("far", 0x8203), ("near", 1)],
+        src: ".orig x0100\nld r0 kk\nnear jmp r0\nkk .fill x8303\n.blkw x8200\nfar add r1 r1 #1\nbrnzp far\n" },
     Loopy { class: "sub_loop", stack: true, origin: 0x3000, n: 8, labels: &[("again", 2), ("f", 6), ("fr", 7)],
         src: "and r4 r4 #0\nadd r4 r4 #3\nagain call f\nadd r4 r4 #-1\nbrp again\nhalt\nf add r1 r1 #1\nfr rets\n" },
 ];
@@ -194,7 +198,7 @@ fn session(
     kind: &str,
 ) {
     let lines = script_lines(cmds, salt);
-    let sep = if salt % 4 == 0 { ";" } else { "\n" };
+    let sep = match salt % 5 { 0 => ";", 1 => "mix", _ => "\n" };
     let checked = run_and_verify(out, "C11", case, text, stack, cmds, &lines, sep, input, true, breaks);
     let Some(sess) = &checked.sess else {
         return;
